@@ -99,7 +99,7 @@ func checkOperationKinds(c *core.Ctx) {
 	}
 	var exec *ast.FuncDecl
 	core.AllFuncDecls(p, func(fd *ast.FuncDecl) {
-		if fd.Name.Name == "callNativeFunc" {
+		if fd.Name.Name == interpExecLoopName(p) {
 			exec = fd
 		}
 	})
@@ -332,7 +332,7 @@ func checkI32ZeroExtension(c *core.Ctx) {
 	info := p.TypesInfo
 	var exec *ast.FuncDecl
 	core.AllFuncDecls(p, func(fd *ast.FuncDecl) {
-		if fd.Name.Name == "callNativeFunc" {
+		if fd.Name.Name == interpExecLoopName(p) {
 			exec = fd
 		}
 	})
@@ -1197,7 +1197,7 @@ func checkAtomicCheckOrder(c *core.Ctx) {
 	interpOrder := ""
 	info := ip.TypesInfo
 	core.AllFuncDecls(ip, func(fd *ast.FuncDecl) {
-		if fd.Name.Name != "callNativeFunc" {
+		if fd.Name.Name != interpExecLoopName(ip) {
 			return
 		}
 		ast.Inspect(fd.Body, func(x ast.Node) bool {
